@@ -6,6 +6,7 @@ import (
 	"golang.org/x/text/unicode/norm"
 
 	"github.com/smarthome-go/homescript/v3/homescript/compiler"
+	pAst "github.com/smarthome-go/homescript/v3/homescript/parser/ast"
 	"github.com/smarthome-go/homescript/v3/homescript/runtime/value"
 )
 
@@ -45,90 +46,34 @@ func (c Core) frameIP() uint { return c.CallStack[len(c.CallStack)-1].Instructio
 // Source-level semantics of the operators (64-bit two's complement integers,
 // IEEE-754 doubles), the oracle for the arithmetic instructions.
 
+// The instruction-level functions below are the source-level operator
+// semantics (parser/ast, shared with the tree-walking interpreter) read
+// through the compiler's lowering table.
+
 /*@ func intOp
     wrap int64
 @*/
 func intOp(op compiler.Opcode, l int64, r int64) int64 {
-	switch op {
-	case compiler.Opcode_Add:
-		return l + r
-	case compiler.Opcode_Sub:
-		return l - r
-	case compiler.Opcode_Mul:
-		return l * r
-	case compiler.Opcode_Div:
-		return l / r
-	case compiler.Opcode_Rem:
-		return l % r
-	case compiler.Opcode_Shl:
-		return l << r
-	case compiler.Opcode_Shr:
-		return l >> r
-	case compiler.Opcode_BitOr:
-		return l | r
-	case compiler.Opcode_BitAnd:
-		return l & r
-	case compiler.Opcode_BitXor:
-		return l ^ r
-	}
-	return 0
+	return pAst.VIntOp(compiler.VInfixOfOpcode(op), l, r)
 }
 
 func floatOp(op compiler.Opcode, l float64, r float64) float64 {
-	switch op {
-	case compiler.Opcode_Add:
-		return l + r
-	case compiler.Opcode_Sub:
-		return l - r
-	case compiler.Opcode_Mul:
-		return l * r
-	case compiler.Opcode_Div:
-		return l / r
-	}
-	return 0
+	return pAst.VFloatOp(compiler.VInfixOfOpcode(op), l, r)
 }
 
 // sameFloat: equal as IEEE-754 values, with NaN equal to NaN.
 func sameFloat(a float64, b float64) bool { return a == b || (a != a && b != b) }
 
 func boolOp(op compiler.Opcode, l bool, r bool) bool {
-	switch op {
-	case compiler.Opcode_BitOr:
-		return l || r
-	case compiler.Opcode_BitAnd:
-		return l && r
-	case compiler.Opcode_BitXor:
-		return l != r
-	}
-	return false
+	return pAst.VBoolOp(compiler.VInfixOfOpcode(op), l, r)
 }
 
 func cmpInt(op compiler.Opcode, l int64, r int64) bool {
-	switch op {
-	case compiler.Opcode_Lt:
-		return l < r
-	case compiler.Opcode_Gt:
-		return l > r
-	case compiler.Opcode_Le:
-		return l <= r
-	case compiler.Opcode_Ge:
-		return l >= r
-	}
-	return false
+	return pAst.VCmpInt(compiler.VInfixOfOpcode(op), l, r)
 }
 
 func cmpFloat(op compiler.Opcode, l float64, r float64) bool {
-	switch op {
-	case compiler.Opcode_Lt:
-		return l < r
-	case compiler.Opcode_Gt:
-		return l > r
-	case compiler.Opcode_Le:
-		return l <= r
-	case compiler.Opcode_Ge:
-		return l >= r
-	}
-	return false
+	return pAst.VCmpFloat(compiler.VInfixOfOpcode(op), l, r)
 }
 
 func isCompare(op compiler.Opcode) bool {
@@ -221,11 +166,11 @@ func negativeShift(r value.Value) bool {
 // raises: the operator raises a runtime error on these operands instead of
 // producing a value.
 func raises(op compiler.Opcode, r value.Value) bool {
-	if op == compiler.Opcode_Div || op == compiler.Opcode_Rem {
-		return divisorIsZero(r)
-	}
-	if op == compiler.Opcode_Shl || op == compiler.Opcode_Shr {
-		return negativeShift(r)
+	switch x := r.(type) {
+	case value.ValueInt:
+		return pAst.VIntOpRaises(compiler.VInfixOfOpcode(op), x.Inner)
+	case value.ValueFloat:
+		return pAst.VFloatOpRaises(compiler.VInfixOfOpcode(op), x.Inner)
 	}
 	return false
 }
